@@ -483,9 +483,17 @@ impl P2p {
         // User can give us a bad header, so validate it.
         from.validate().map_err(|_| HeaderExError::InvalidRequest)?;
 
-        let height = from.height() + 1;
+        if amount == 0 {
+            // An empty range would make the session retry an invalid (zero amount) request forever.
+            return Ok(Vec::new());
+        }
 
-        let range = height..=height + amount - 1;
+        let height = from.height() + 1;
+        let end = height
+            .checked_add(amount - 1)
+            .ok_or(HeaderExError::InvalidRequest)?;
+
+        let range = height..=end;
 
         let mut session = HeaderSession::new(range, self.cmd_tx.clone());
         let headers = session.run().await?;
